@@ -64,6 +64,38 @@ func (h *bsHeaders) LastHash() bitcoin.Hash32 {
 	return r
 }
 
+// When armed for it, a reorganisation lands while the synchronisation walks back from the tip: before the k-th
+// read of the repository that follows (whichever read that is - the walk is the implementation's business).
+func (h *bsHeaders) maybeReorg() {
+	for {
+		k := atomic.LoadInt32(&h.w.armedReorg)
+		if k <= 0 {
+			return
+		}
+		if atomic.CompareAndSwapInt32(&h.w.armedReorg, k, k-1) {
+			if k == 1 && h.w.reorgNow() {
+				atomic.AddInt32(&h.w.injected, 1)
+			}
+			return
+		}
+	}
+}
+
+func (h *bsHeaders) PreviousHash(hash bitcoin.Hash32) (*bitcoin.Hash32, int) {
+	h.maybeReorg()
+	return h.Repository.PreviousHash(hash)
+}
+
+func (h *bsHeaders) Hash(ctx context.Context, height int) (*bitcoin.Hash32, error) {
+	h.maybeReorg()
+	return h.Repository.Hash(ctx, height)
+}
+
+func (h *bsHeaders) HashHeight(hash bitcoin.Hash32) int {
+	h.maybeReorg()
+	return h.Repository.HashHeight(hash)
+}
+
 type bsBlock struct {
 	id     int
 	height int
@@ -87,6 +119,8 @@ type bsWorld struct {
 	nodes   []*bsNode
 	// header injection between two reads of the synchronisation
 	armed, injected int32
+	armedReorg      int32
+	reorgSeed       int64
 	hdrMu           sync.Mutex // serialises additions to the chain (driver and injection)
 	maxLen          int
 	planFn          func(id int)
@@ -350,6 +384,33 @@ func (w *bsWorld) appendHeader() bool {
 	return true
 }
 
+// reorgNow replaces the blocks from a seed-chosen height up to the tip by a heavier fork of the same length.
+func (w *bsWorld) reorgNow() bool {
+	w.hdrMu.Lock()
+	defer w.hdrMu.Unlock()
+	n := len(w.chain) - 1
+	if n < 1 {
+		return false
+	}
+	forkAt := 1 + int(w.reorgSeed%int64(n))
+	w.mu.Lock()
+	w.events = append(w.events, w.stamp(bsEvent{Ev: "reorg", H: forkAt}))
+	w.mu.Unlock()
+	prev := w.chain[forkAt-1].hash
+	newChain := append([]*bsBlock{}, w.chain[:forkAt]...)
+	for h := forkAt; h <= n; h++ {
+		b := w.newBlock(h, prev, true)
+		if err := w.repo.ProcessHeader(w.ctx, b.header); err != nil {
+			w.hdrErr = "harness: " + err.Error()
+			return false
+		}
+		newChain = append(newChain, b)
+		prev = b.hash
+	}
+	w.chain = newChain
+	return true
+}
+
 // waitSources waits until no source is working on a block any more (a source that was asked while
 // another one was ahead returns when it is cancelled, or delivers after 300 ms if nobody cancels it).
 func (w *bsWorld) waitSources(d time.Duration) {
@@ -533,6 +594,7 @@ func bsTraceOne(id int, seed int64, orphan bool) bsTrace {
 	}
 	steps := 2 + rng.Intn(5)
 	var triggered int32
+	reorged := false
 	catchUp := func() {
 		// the trigger the node manager issues for a header that arrived between two reads of the synchronisation
 		for triggered < atomic.LoadInt32(&w.injected) {
@@ -541,7 +603,7 @@ func bsTraceOne(id int, seed int64, orphan bool) bsTrace {
 		}
 	}
 	for s := 0; s < steps; s++ {
-		switch rng.Intn(5) {
+		switch rng.Intn(6) {
 		case 0:
 			time.Sleep(time.Duration(rng.Intn(3000)) * time.Microsecond)
 		case 1, 2:
@@ -554,6 +616,14 @@ func bsTraceOne(id int, seed int64, orphan bool) bsTrace {
 			// the next round reads the tip, and a header arrives before it reads anything else
 			atomic.StoreInt32(&w.armed, 1)
 			trigger()
+		case 5:
+			// ... or a reorganisation lands while the round walks back from the tip (once per trace)
+			if !reorged {
+				reorged = true
+				w.reorgSeed = rng.Int63()
+				atomic.StoreInt32(&w.armedReorg, int32(1+rng.Intn(4)))
+				trigger()
+			}
 		}
 		catchUp()
 	}
@@ -567,6 +637,7 @@ func bsTraceOne(id int, seed int64, orphan bool) bsTrace {
 		catchUp()
 	}
 	atomic.StoreInt32(&w.armed, 0)
+	atomic.StoreInt32(&w.armedReorg, 0)
 	if w.hdrErr != "" {
 		tr.Note = w.hdrErr
 	}
@@ -575,7 +646,7 @@ func bsTraceOne(id int, seed int64, orphan bool) bsTrace {
 
 	// a reorganisation after the rounds have completed: the blocks of the new best chain above the fork
 	// point are still to be processed, from the lowest one
-	if n := len(w.chain) - 1; tr.Note == "" && n >= 1 && rng.Intn(3) == 0 {
+	if n := len(w.chain) - 1; tr.Note == "" && n >= 1 && !reorged && rng.Intn(3) == 0 {
 		forkAt := 1 + rng.Intn(n)
 		w.log(bsEvent{Ev: "reorg", H: forkAt})
 		prev := w.chain[forkAt-1].hash
@@ -657,6 +728,42 @@ func bsOrphan(id int, seed int64) bsTrace {
 		tr.Note = "the synchronisation thread did not finish within 25 s of the reorganisation"
 	}
 	close(release)
+	w.log(bsEvent{Ev: "idle", Set: w.processedSet()})
+	w.mu.Lock()
+	tr.Events = append([]bsEvent{}, w.events...)
+	w.mu.Unlock()
+	tr.Cancelled = w.cancelledNodes()
+	for i := range tr.Events {
+		if tr.Events[i].Set == nil {
+			tr.Events[i].Set = []int{}
+		}
+	}
+	return tr
+}
+
+// bsSlowBlock: a block that is not the first of its round takes longer than the 10 s after which the
+// implementation checks whether a pending block has left the best chain.  It has not: it must not be
+// abandoned, and the round goes on to the tip.
+func bsSlowBlock(id int, seed int64) bsTrace {
+	rng := rand.New(rand.NewSource(seed))
+	const maxLen = 6
+	n := 3 + rng.Intn(2)
+	tr := bsTrace{ID: id, N: n, Start: 1, MaxLen: maxLen, Processed: []int{}, Plan: map[string][]string{}}
+	w := newBsWorld(n, 1, nil, maxLen+1)
+	defer w.close()
+	held := w.chain[2+rng.Intn(n-2)] // not the first block of the round
+	release := make(chan struct{})
+	w.mu.Lock()
+	w.hold[held.id] = release
+	w.mu.Unlock()
+	w.log(bsEvent{Ev: "trigger"})
+	w.nm.VerifMarkStartupDelayComplete(w.ctx)
+	time.Sleep(10500 * time.Millisecond)
+	close(release)
+	if !w.waitIdle(15 * time.Second) {
+		tr.Note = "the synchronisation thread did not finish within 15 s of the slow block's delivery"
+	}
+	w.waitSources(time.Second)
 	w.log(bsEvent{Ev: "idle", Set: w.processedSet()})
 	w.mu.Lock()
 	tr.Events = append([]bsEvent{}, w.events...)
@@ -797,7 +904,9 @@ func bsyMain(args []string) int {
 			go func() {
 				defer wg.Done()
 				for id := range jobs {
-					if id < *orphans {
+					if id < *orphans && id%3 == 2 {
+						res[id] = bsSlowBlock(id+1, *seed*1000003+int64(id))
+					} else if id < *orphans {
 						res[id] = bsOrphan(id+1, *seed*1000003+int64(id))
 					} else {
 						res[id] = bsTraceOne(id+1, *seed*1000003+int64(id), false)
